@@ -77,7 +77,17 @@ def symbols_of(e):
 def quant(kind, bound, body, patterns=None):
     """quantifier with explicit E-matching patterns when they are admissible (a pattern must not contain if-then-else or other interpreted structure), otherwise with inferred ones"""
     mk = z3.ForAll if kind == "forall" else z3.Exists
-    if patterns:
+    def has_ite(e):
+        todo = [e]; seen = set()
+        while todo:
+            x = todo.pop()
+            if x.get_id() in seen: continue
+            seen.add(x.get_id())
+            if z3.is_app(x):
+                if x.decl().kind() == z3.Z3_OP_ITE: return True
+                todo.extend(x.children())
+        return False
+    if patterns and not any(has_ite(p) for p in patterns):
         try: return mk(bound, body, patterns=patterns)
         except z3.Z3Exception: pass
     return mk(bound, body)
